@@ -702,3 +702,21 @@ func H_longname_unbuffered() {
 	verifAssert(w.Close() == nil, "Close")
 	verifReach("longname-unbuffered")
 }
+
+// C14: NewWatcher is NewBufferedWatcher with the platform's default buffer size
+// (0 except on Windows, where it is 50), NewBufferedWatcher(n) has exactly n.
+func H_default_buffer() {
+	verifKReset()
+	old := defaultBufferSize
+	defaultBufferSize = [...]int{0, 1, 50}[verifChoose("platform-default", 3)]
+	wt, err := NewWatcher()
+	verifAssert(err == nil && wt != nil, "NewWatcher succeeds")
+	verifAssert(cap(wt.Events) == defaultBufferSize, "NewWatcher's Events channel has the platform's default capacity")
+	verifAssert(wt.Close() == nil, "Close")
+	n := [...]int{0, 1, 7}[verifChoose("n", 3)]
+	wb, err2 := NewBufferedWatcher(uint(n))
+	verifAssert(err2 == nil && wb != nil && cap(wb.Events) == n, "NewBufferedWatcher(n) has capacity n")
+	verifAssert(wb.Close() == nil, "Close")
+	defaultBufferSize = old
+	verifReach("default-buffer")
+}
